@@ -375,8 +375,8 @@ def load_previous_run(args):
 
 
 def save_params(args):
-    for file_opt in ["genedb", "reference", "index", "bam", "fastq", "bam_list", "fastq_list", "junc_bed_file",
-                     "cage", "genedb_output", "read_assignments"]:
+    for file_opt in ["genedb", "reference", "index", "bam", "fastq", "bam_list", "fastq_list", "yaml", "illumina_bam",
+                     "junc_bed_file", "cage", "genedb_output", "read_assignments"]:
         if file_opt in args.__dict__ and args.__dict__[file_opt]:
             if isinstance(args.__dict__[file_opt], list):
                 args.__dict__[file_opt] = list(map(os.path.abspath, args.__dict__[file_opt]))
@@ -389,9 +389,12 @@ def save_params(args):
             vals[1] = os.path.abspath(vals[1])
             args.read_group = ":".join(vals)
 
-    pickler = pickle.Pickler(open(args.param_file, "wb"),  -1)
-    pickler.dump(args)
-    pass
+    # a resumed run saves its parameters again: the file of the previous run must stay intact until the new one is
+    # complete, otherwise a run interrupted at this point could never be resumed again
+    tmp_param_file = args.param_file + ".tmp"
+    with open(tmp_param_file, "wb") as param_handle:
+        pickle.Pickler(param_handle, -1).dump(args)
+    os.replace(tmp_param_file, args.param_file)
 
 
 # Check user's params
